@@ -916,11 +916,11 @@ def oracle(ctx, deep=False, only=None):
                 run_potential(name)
         # 3. quick tier: one Maxwell operator per run (E / M alternating with the seed, complex k) with DIFFERENT test and
         #    trial supports; the evaluators of the gradient-based and Maxwell operators are Python glue without a theorem
-        if not deep and not any(f_.startswith("max_") for f_ in fsel):
-            mx = "max_M_ck" if ctx.seed % 2 == 1 else "max_E_ck"
-            if budget_ok("family " + mx, limit=QUICK_BUDGET_S + 60):
-                ctx.log(f"oracle: family {mx} (test whole grid / trial segment)")
-                compare(mx, fam[mx], gA, gA, "segment-domain", "same")
+        if not deep:
+            for mx in (("max_M_ck", "max_E_ck") if ctx.seed % 2 == 1 else ("max_E_ck", "max_M_ck")):
+                if mx not in fsel and budget_ok("family " + mx, limit=QUICK_BUDGET_S + 120):
+                    ctx.log(f"oracle: family {mx} (test whole grid / trial segment)")
+                    compare(mx, fam[mx], gA, gA, "segment-domain", "same")
         fmmstub.clear_caches()
     res.stats["oracle_skipped_for_time_budget"] = skipped_for_time
     res.stats.update({"oracle_" + k: v for k, v in stats.items()})
